@@ -295,6 +295,7 @@ func (s *Store) Commit() (root []byte, err lib.ErrorI) {
 		s.Reset()
 		return nil, commitErr
 	}
+	verifPoint("store.commit.afterApply", int(nextVersion))
 	// update the metrics once complete
 	s.metrics.UpdateStoreMetrics(int64(size), int64(count), time.Time{}, startTime)
 	s.version = nextVersion
